@@ -59,6 +59,15 @@ func runC02(l *core.Ledger) {
 	}
 	l.With(map[string]string{"C07-E3": "C02-T8"}, func() { c07E3(l, r) })
 	l.With(map[string]string{"C07-E4": "C02-T8"}, func() { c07E4(l, r) })
+	// ... and that no other call takes the reply away: one id source for every call on a node
+	// (a second counter numbers node-level calls like configuration-level ones: the later
+	// registration replaces the router of the call that is still waiting, its reply is dropped
+	// and the call waits out its deadline although the quorum had answered)
+	{
+		var eps []*entryPoint
+		l.With(map[string]string{}, func() { eps = findEntryPoints(l, r, "C02-T8") })
+		l.With(map[string]string{"C05-M1": "C02-T8"}, func() { c05M1(l, r, eps) })
+	}
 }
 
 // completion is a place where a reply loop fixes the call's outcome. When
